@@ -43,7 +43,8 @@ def accounts():
 def gen_wallet(tier):
     ent = st.sampled_from([16, 20, 24, 28, 32]).flatmap(lambda n: st.binary(min_size=n, max_size=n))
     return st.fixed_dictionaries({
-        "source": st.sampled_from(["mnemonic", "mnemonic", "seed", "xprv"]),
+        "source": st.sampled_from(["mnemonic", "mnemonic", "seed", "xprv", "xprv"]),
+        "xver": st.sampled_from([44, 44, 49, 84]),
         "entropy": ent, "pw": st.one_of(st.just(""), S.unicode_text(8)), "seed": S.seeds(16, 64),
         "testnet": st.booleans(),
         "calls": st.lists(st.tuples(accounts(), intervals()), min_size=1, max_size=3),
@@ -62,7 +63,7 @@ def build(case):
     rm = R.master(case["seed"])
     if src == "seed":
         return rm, PW.from_bip39_seed_bytes(case["seed"], testnet), (None, None)
-    return rm, PW.from_extended_key(rm.xprv(R.TPRV if testnet else R.XPRV)), (None, None)
+    return rm, PW.from_extended_key(rm.xprv(R.VERSION_OF[("prv", testnet, case.get("xver", 44))])), (None, None)
 
 
 def expected_address(kind, pt, testnet):
@@ -139,13 +140,18 @@ def check_wallet(case, ctx):
     if case["same_account"]:
         calls = [[calls[0][0], c[1]] for c in calls]
     first = None
+    records = []
     for n, (account, interval) in enumerate(calls):
         interval = [int(interval[0]), int(interval[1])]
         what = "generate(account=%d, interval=%r) call #%d on one %s wallet (testnet=%s)" % (account, interval, n + 1, case["source"], testnet)
-        st_, data = call(w.generate, account, tuple(interval))
+        if n % 2:
+            st_, data = call(w.generate, account=account, interval=list(interval))    # as __main__ calls it
+        else:
+            st_, data = call(w.generate, account, tuple(interval))
         if st_ == "exc":
             raise Violation("C06/generate/raised", "%s raised %r" % (what, data))
         judge_record(data, rm, testnet, account, interval, echo, what)
+        records.append(data)
         if first is None:
             first = (data, account, interval, what)
         elif n == len(calls) - 1:
@@ -157,6 +163,37 @@ def check_wallet(case, ctx):
                 raise Violation("C06/json/raised", "%s json() raised %r" % (what, js))
             if json.loads(js) != json.loads(json.dumps(data)):
                 raise Violation("C06/json/roundtrip", "%s: json.loads(w.json(d)) != d" % what)
+    # file exports into ONE path, longest record first: each file must parse back to exactly what was exported
+    import os, shutil, tempfile
+    tmpd = tempfile.mkdtemp(prefix="c06-")
+    try:
+        fp = os.path.join(tmpd, "wallet.json")
+        exports = sorted(records, key=lambda d_: -len(json.dumps(d_)))
+        for d_ in exports:
+            st_, e = call(w.export_wallet, fp, 4, d_) if len(exports) % 2 else call(w.export_wallet, file_path=fp, data=d_)
+            if st_ == "exc":
+                raise Violation("C06/export/raised", "export_wallet raised %r" % (e,))
+            with open(fp) as f:
+                text = f.read()
+            try:
+                back = json.loads(text)
+            except ValueError as e:
+                raise Violation("C06/export/not-json", "file written by export_wallet over an earlier, longer export does not "
+                                "parse: %r (%d characters)" % (e, len(text)))
+            if back != json.loads(json.dumps(d_)):
+                raise Violation("C06/export/roundtrip", "export_wallet file differs from the exported record")
+        st_, e = call(w.export_wasabi, fp)
+        if st_ == "exc":
+            raise Violation("C06/export/raised", "export_wasabi raised %r" % (e,))
+        with open(fp) as f:
+            text = f.read()
+        try:
+            if json.loads(text) != json.loads(w.wasabi_json()):
+                raise Violation("C06/export/wasabi-roundtrip", "export_wasabi file differs from wasabi_json()")
+        except ValueError as e:
+            raise Violation("C06/export/not-json", "export_wasabi over an earlier export does not parse: %r" % (e,))
+    finally:
+        shutil.rmtree(tmpd, ignore_errors=True)
     # Wasabi export
     st_, wj = call(w.wasabi_json)
     if st_ == "exc":
@@ -181,7 +218,7 @@ def nt_wallet(case):
 def classes_wallet(case):
     a, iv = case["calls"][0]
     rows = max(0, iv[1] - iv[0])
-    return ["src:" + case["source"], "test" if case["testnet"] else "main", "rows=%d" % rows, "calls=%d" % len(case["calls"]),
+    return ["src:" + case["source"] + (":%d" % case.get("xver", 44) if case["source"] == "xprv" else ""), "test" if case["testnet"] else "main", "rows=%d" % rows, "calls=%d" % len(case["calls"]),
             "account-edge" if a in (0, 1, H - 1, H - 2) else "account-uniform", "start-edge" if iv[0] in (0, 1, H - 2, H - 4) else "start-uniform"]
 
 
